@@ -14,6 +14,8 @@ import (
 	"github.com/openGemini/openGemini/lib/errno"
 	"github.com/openGemini/openGemini/lib/logger"
 	"github.com/openGemini/openGemini/lib/metaclient"
+	"github.com/openGemini/openGemini/lib/statisticsPusher"
+	"github.com/openGemini/openGemini/lib/statisticsPusher/statistics/opsStat"
 	"github.com/openGemini/openGemini/lib/syscontrol"
 	"github.com/openGemini/openGemini/lib/util/lifted/influx/auth"
 	"github.com/openGemini/openGemini/lib/util/lifted/influx/httpd"
@@ -79,6 +81,7 @@ func newEnv(w *world, cfg cfgSpec, withProbe bool) *env {
 	e.h.QueryExecutor.StatementExecutor = &recExecutor{e.rec}
 	e.h.QueryExecutor.TaskManager.Register = &recRegister{e.rec}
 	e.h.SQLConfig = config2.NewTSSql(false)
+	e.h.StatisticsPusher = statsPusher(e)
 	syscontrol.SysCtrl.MetaClient = &sysMeta{rec: e.rec}
 	if cfg.ext {
 		// what app/ts-sql/sql/server.go:NewServer does when [runtime-config] is enabled
@@ -113,6 +116,32 @@ func (e *env) unlock() {
 	for _, u := range e.w.users {
 		_, _ = e.client.Authenticate(u.name, u.pw)
 	}
+}
+
+// statsPusher: the process-wide StatisticsPusher with one ops collector that reports to the
+// recorder of whichever env is being driven (what /debug/vars serves).
+var (
+	pusherOnce sync.Once
+	pusher     *statisticsPusher.StatisticsPusher
+	pusherEnv  *env
+)
+
+func statsPusher(e *env) *statisticsPusher.StatisticsPusher {
+	pusherOnce.Do(func() {
+		mc := config2.NewMonitor(config2.AppSql)
+		mc.StoreEnabled = true
+		pusher = statisticsPusher.NewStatisticsPusher(&mc, logger.NewLogger(errno.ModuleHTTP))
+		if pusher != nil {
+			pusher.RegisterOps(func() []opsStat.OpsStatistic {
+				if pusherEnv != nil {
+					pusherEnv.rec.effect("StatisticsPusher.CollectOpsStatistics")
+				}
+				return []opsStat.OpsStatistic{{Name: "verif", Tags: map[string]string{"k": "v"}, Values: map[string]interface{}{"n": 1}}}
+			})
+		}
+	})
+	pusherEnv = e
+	return pusher
 }
 
 type response struct {
